@@ -473,6 +473,11 @@ func NewInstance(log *mon.Log, name string, o Opt) *Instance {
 	h.SetProducerBatchLimit(bl)
 	h.SetAuthenticate(authenticator)
 	_ = h.SetCompressionLevel(0)
+	// HTML pages are rendered on the first request of every instance; the
+	// checks create thousands of instances and never look at pages.
+	h.SetEnableLandingPage(false)
+	h.SetEnableDescribePage(false)
+	h.SetEnableNotFoundPage(false)
 	h.SetRehydrateFunc(func(state interface{}, method string) error {
 		log.Add("rehydrate", "rehydrate", method, Evt{Inst: name, Route: method, State: strings.TrimPrefix(fmt.Sprintf("%T", state), "*we.")})
 		return nil
